@@ -169,6 +169,48 @@ def job_vegas(dim, script, ncall):
     if n == 0: res.append(ob(tag + '/history/pairs', 'broken', detail='no jointly feasible pair (%d fresh, %d history paths: %s)' % (len(fresh), len(hist), [str(q.end) for q in hist][:2])))
     return res
 
+SCRIPT_EDGE = [0.0, 0.995, 0.019, 0.5, 0.021, 0.981, 0.3, 0.979, 0.999, 0.001, 0.0, 0.62, 0.985, 0.015, 0.0, 0.44]
+GRID_SCRIPTS = {'zeros': [0.0], 'ones': [1.0 - 2.0 ** -53], 'edges': SCRIPT_EDGE}
+def job_vegas_grid(dim, ncall, sname):
+    """Vegas re-entered with init = 1 on an ARBITRARY valid importance grid (0 < xi_0 < ... < xi_49 = 1 per axis, the state any number of earlier iterations can leave behind): every sample of the next iteration lies inside the region.
+       The draws are scripted and include the ends of the unit interval, so that the first and the last grid bin are selected."""
+    res = []; tag = 'vegas-grid/dim%d/%s' % (dim, sname); lo, hi, pre = region(dim); NDMX = 50; SCRIPT_EDGE = GRID_SCRIPTS[sname]
+    def cut_sqrt(it, args, st, depth): raise PathEnd('cutoff', 'end of the first sampling loop')
+    inter = dict(stream(SCRIPT_EDGE)); inter.update(user_fv(lambda comps: 1.0 + sum(comps)))
+    it = Interp(G['m'], intercept=inter, limits=Limits(max_steps=40000000, max_paths=100, feas_ms=1000, max_seconds=300)); st = it.new_state(); st.pc += pre
+    hp = it.execute('@verif_c14_vegas', [dim, st.put_doubles([0.5 * k for k in range(dim)] + [2.0 + k for k in range(dim)]), 0, ncall, 1], st)     # concrete first call: constructs the function statics
+    live = [p for p in hp if p.end is None]
+    if len(live) != 1: return [ob(tag + '/setup', 'undecided', detail='initialising call: %s' % [str(p.end) for p in hp][:3])]
+    st = live[0].st; st.events = [e for e in st.events if e[0] not in ('call', 'draw')]
+    ga = {str(g).rsplit('E', 1)[-1]: a for g, a in it.gaddr.items() if isinstance(g, str) and g.startswith('@_ZZN') and 'Integrate_MC_Vegas' in g}
+    if not all(k in ga for k in ('2xi', '3ndo', '3mds')): return [ob(tag + '/setup', 'broken', detail='Vegas statics not found: %s' % sorted(ga))]
+    if st.load(ga['3ndo'], 4) != NDMX: return [ob(tag + '/setup', 'undecided', detail='grid size after the first call is %r, not %d' % (st.load(ga['3ndo'], 4), NDMX))]
+    rows = st.load(ga['2xi'], 8); XI = []
+    for j in range(dim):
+        data = st.load(rows + 24 * j, 8); g = [z3.Real('xi_%d_%d' % (j, i)) for i in range(NDMX - 1)] + [1.0]
+        for i in range(NDMX): st.store(data + 8 * i, 8, g[i])
+        st.pc += [g[0] > 0] + [toR(g[i]) < toR(g[i + 1]) for i in range(NDMX - 1)]; XI.append(g)
+    def any_root(it, args, st, depth):
+        # per-stratum sqrt(f2b*npg): an arbitrary non-negative number (over-approximation; the sample positions do not depend on it)
+        if not is_sym(args[0]): return NotImplemented
+        k = sum(1 for e in st.events if e[0] == 'anyroot'); v = z3.Real('root%d' % k); st.pc.append(v >= 0); st.events.append(('anyroot',)); return [(st, v)]
+    def cut_sym(it, args, st, depth):
+        if any(is_sym(a) for a in args): raise PathEnd('cutoff', 'grid refinement reached: end of the sampling of all strata')
+        return NotImplemented
+    it.intercept = dict(DEFAULT_INTERCEPTS_()); it.intercept.update(stream(SCRIPT_EDGE)); it.intercept.update(user_fv(fv_uninterp))
+    for nme in ('@sqrt', '@llvm.sqrt.f64'): it.intercept[nme] = any_root
+    for nme in ('@pow', '@llvm.pow.f64', '@log', '@llvm.log.f64'): it.intercept[nme] = cut_sym
+    ps = it.execute('@verif_c14_vegas', [dim, st.put_doubles(lo + hi), 1, ncall, 1], st)
+    mv = {'lo': lo, 'hi': hi, 'dim': dim, 'ncall': ncall, 'grid': [x for g in XI for x in g[:NDMX - 1]]}; n = 0
+    for pi, p in enumerate(ps):
+        if p.end is None or p.end.kind != 'cutoff':
+            res.append(prove('%s/reaches-end-of-sampling[%d]' % (tag, pi), p.st.pc, z3.BoolVal(False), 20000, mv, key='C14/vegas/returns', detail=str(p.end))); continue
+        cs = calls(p.st); n += len(cs)
+        for ci, c in enumerate(cs):
+            res.append(prove('%s/point-inside[%d,%d]' % (tag, pi, ci), p.st.pc, inside(lo, hi, c[1][:dim]), 30000, dict(mv, sample_index=ci), key='C14/vegas/grid-points-inside', tactic='nra'))
+    res.append(ob(tag + '/coverage', 'discharged' if n >= 2 else 'broken', key='C14/coverage', detail='%d sample points on an arbitrary valid grid' % n))
+    return res
+
 def DEFAULT_INTERCEPTS_():
     import llsym
     return llsym.DEFAULT_INTERCEPTS
@@ -181,6 +223,8 @@ def jobs(ctx):
         for sc in (0, 1): J.append((job_miser_split, (d, sc)))
     for d in b['dims'][:2]:
         for sc in (0, 1): J.append((job_vegas, (d, sc, b['vegas_calls'])))
+    for d in b['dims'][:2]:
+        for sn in GRID_SCRIPTS: J.append((job_vegas_grid, (d, 2 * b['vegas_calls'], sn)))
     return J
 
 def validate(ctx):
@@ -193,6 +237,44 @@ def replay(ctx, o):
     lo = [q2f(q) for q in m['lo']]; hi = [q2f(q) for q in m['hi']]; d = m['dim']
     if any(a >= b for a, b in zip(lo, hi)): lo = [0.0] * d; hi = [1.0 + 0.5 * k for k in range(d)]
     sigv = ctypes.CFUNCTYPE(ctypes.c_double, ctypes.POINTER(ctypes.c_double), ctypes.c_ulong)
+    if key == 'C14/vegas/grid-points-inside':
+        # let the real Vegas adapt its grid to an integrand that rises steeply towards the upper faces (narrow last bins), several iterations, then look at every point it evaluates
+        out = []
+        def fpk(p, n):
+            t = [(p[k] - lo[k]) / (hi[k] - lo[k]) for k in range(d)]
+            fpk.note = [p[k] for k in range(d)]
+            return math.exp(-40.0 * sum(1.0 - x for x in t))
+        def pre_seed(lib): ctypes.c_uint.in_dll(lib, 'libphysica_verif_mc_seed').value = 4242
+        tot = 0
+        for nobs in (600, 40):
+            r = nat.call(so, 'verif_c14_vegas', [('u32', d), ('dbl[]', lo + hi), ('i32', 0), ('i32', nobs), ('i32', 6)], fcb=fpk, fcb_name='verif_fv_ptr', fcb_sig=sigv, pre=pre_seed)
+            if r['status'] != 'ok': return False, 'native Vegas: %s' % r.get('error', r['status'])
+            bad = [c[2] for c in r['calls'] if len(c) > 2 and any(c[2][k] < lo[k] or c[2][k] > hi[k] for k in range(d))]; tot += len(r['calls'])
+            if bad: return True, 'native Vegas (%d calls, 6 iterations, seed 4242) on region %s with an integrand peaked at the upper faces evaluated it at %d points outside the region, first %s' % (nobs, lo + hi, len(bad), bad[0])
+        return False, 'native Vegas on region %s: all %d evaluation points inside' % (lo + hi, tot)
+    if key.startswith('C14/vegas/history'):
+        # the observed Vegas call (init = 0) from a fresh process and after an earlier Vegas call, same seed: several earlier calls are tried, first the one of the symbolic run (other dimension, 2 ncall + 3 calls, 2 iterations)
+        def fvp(p, n):
+            t = (p[0] - lo[0]) / (hi[0] - lo[0]) if n == d else p[0] / 3.0
+            return math.exp(-50.0 * (t - 0.8) ** 2) + 0.1
+        nc = m.get('ncall', 4); tried = []
+        for hd, nh in ((3 - d if d < 3 else 2, 2 * nc + 3), (2, 1000), (1, 1000), (3, 1000), (1, 40), (2, 40)):
+            for nobs in (nc, 40, 1000):
+                def pre_hist(lib, hd=hd, nh=nh):
+                    reg = (ctypes.c_double * (2 * hd))(*([0.5 * k for k in range(hd)] + [2.0 + k for k in range(hd)])); lib.verif_c14_vegas.restype = ctypes.c_double
+                    ctypes.c_uint.in_dll(lib, 'libphysica_verif_mc_seed').value = 777
+                    lib.verif_c14_vegas(ctypes.c_uint(hd), reg, ctypes.c_int(0), ctypes.c_int(nh), ctypes.c_int(2))
+                    ctypes.c_uint.in_dll(lib, 'libphysica_verif_mc_seed').value = 4242
+                def pre_fresh(lib): ctypes.c_uint.in_dll(lib, 'libphysica_verif_mc_seed').value = 4242
+                args = [('u32', d), ('dbl[]', lo + hi), ('i32', 0), ('i32', nobs), ('i32', 1)]
+                try:
+                    r0 = nat.call(so, 'verif_c14_vegas', args, fcb=fvp, fcb_name='verif_fv_ptr', fcb_sig=sigv, pre=pre_fresh); r1 = nat.call(so, 'verif_c14_vegas', args, fcb=fvp, fcb_name='verif_fv_ptr', fcb_sig=sigv, pre=pre_hist)
+                except Exception as e: return False, 'replay needs the seed hook libphysica_verif_mc_seed: %r' % e
+                if r0['status'] != 'ok' or r1['status'] != 'ok': return False, 'native runs: %s / %s (seed hook missing?)' % (r0.get('error', r0['status']), r1.get('error', r1['status']))
+                tried.append((hd, nh, nobs))
+                if r0['ret'] != r1['ret']:
+                    return True, 'native Vegas (init 0, %d calls, 1 iteration, seed 4242) on region %s: %r from a fresh process, %r after a %d-dimensional Vegas call with %d calls' % (nobs, lo + hi, r0['ret'], r1['ret'], hd, nh)
+        return False, 'native Vegas with the same seed: identical results from a fresh process and after each of %d earlier-call variants' % len(tried)
     if key.startswith('C14/miser/history') or key.startswith('C14/vegas/history'):
         meth = 8 if 'miser' in key else 7
         # integrand without variation on either side of any midpoint in the pre-sample (fallback split) but with a narrow spike: the split axis matters, the pre-sampling does not see it
